@@ -1,0 +1,636 @@
+//go:build verif
+
+package sftp
+
+// Re-exports of package internals for the verification harness in /verif.
+// This file is compiled only with `-tags verif`; it adds no behaviour and
+// edits no existing code.
+
+import (
+	"bytes"
+	"encoding"
+	"errors"
+	"fmt"
+	"io"
+	"os"
+
+	sshfx "github.com/pkg/sftp/internal/encoding/ssh/filexfer"
+	"github.com/pkg/sftp/internal/encoding/ssh/filexfer/openssh"
+)
+
+// ---- mode conversions, flags, paths, errors ----
+
+func VerifToFileMode(m uint32) os.FileMode   { return toFileMode(m) }
+func VerifFromFileMode(m os.FileMode) uint32 { return fromFileMode(m) }
+func VerifToChmodPerm(m os.FileMode) uint32  { return toChmodPerm(m) }
+func VerifToPflags(f int) uint32             { return toPflags(f) }
+func VerifCleanPath(p string) string         { return cleanPath(p) }
+func VerifCleanPathWithBase(base, p string) string {
+	return cleanPathWithBase(base, p)
+}
+func VerifRunLs(fi os.FileInfo) string { return runLs(nil, fi) }
+
+// VerifStatusFromError returns the status code and message the servers put on the wire for err.
+func VerifStatusFromError(err error) (code uint32, msg string) {
+	p := statusFromError(0, err)
+	return p.StatusError.Code, p.StatusError.msg
+}
+
+// VerifStatusError builds the client-side error value for a status reply.
+func VerifStatusError(code uint32, msg, lang string) error {
+	return &StatusError{Code: code, msg: msg, lang: lang}
+}
+func VerifNormaliseError(err error) error { return normaliseError(err) }
+func VerifUnmarshalStatus(id uint32, data []byte) error {
+	return unmarshalStatus(id, data)
+}
+func VerifStatusFields(err error) (code uint32, msg, lang string, ok bool) {
+	var se *StatusError
+	if errors.As(err, &se) {
+		return se.Code, se.msg, se.lang, true
+	}
+	return 0, "", "", false
+}
+func VerifOpenReadonly(pflags uint32) bool {
+	return (&sshFxpOpenPacket{Pflags: pflags}).readonly()
+}
+func VerifSftpExtensions() [][2]string {
+	var out [][2]string
+	for _, e := range sftpExtensions {
+		out = append(out, [2]string{e.Name, e.Data})
+	}
+	return out
+}
+func VerifSupportedExtensions() [][2]string {
+	var out [][2]string
+	for _, e := range supportedSFTPExtensions {
+		out = append(out, [2]string{e.Name, e.Data})
+	}
+	return out
+}
+
+// ---- framing ----
+
+// VerifRecvPacket runs recvPacket on r (with a fresh allocator when useAlloc is set).
+func VerifRecvPacket(r io.Reader, useAlloc bool) (typ uint8, payload []byte, err error) {
+	var a *allocator
+	if useAlloc {
+		a = newAllocator()
+	}
+	t, p, err := recvPacket(r, a, 1)
+	return uint8(t), p, err
+}
+func VerifSendPacket(w io.Writer, m encoding.BinaryMarshaler) error { return sendPacket(w, m) }
+
+// ---- primitive decoders ----
+
+func VerifUnmarshalUint32Safe(b []byte) (uint32, []byte, error) { return unmarshalUint32Safe(b) }
+func VerifUnmarshalUint64Safe(b []byte) (uint64, []byte, error) { return unmarshalUint64Safe(b) }
+func VerifUnmarshalStringSafe(b []byte) (string, []byte, error) { return unmarshalStringSafe(b) }
+func VerifMarshalUint32(b []byte, v uint32) []byte               { return marshalUint32(b, v) }
+func VerifMarshalUint64(b []byte, v uint64) []byte               { return marshalUint64(b, v) }
+func VerifMarshalString(b []byte, v string) []byte               { return marshalString(b, v) }
+func VerifUnmarshalAttrs(b []byte) (*FileStat, []byte, error)    { return unmarshalAttrs(b) }
+func VerifUnmarshalFileStat(flags uint32, b []byte) (*FileStat, []byte, error) {
+	return unmarshalFileStat(flags, b)
+}
+func VerifMarshalFileStat(b []byte, flags uint32, fs *FileStat) []byte {
+	return marshalFileStat(b, flags, fs)
+}
+func VerifFileStatFromInfo(fi os.FileInfo) (uint32, *FileStat) { return fileStatFromInfo(fi) }
+func VerifFileInfoFromStat(fs *FileStat, name string) os.FileInfo {
+	return fileInfoFromStat(fs, name)
+}
+
+// ---- a flat, codec-independent picture of a packet ----
+
+// VerifName is one entry of a NAME reply.
+type VerifName struct {
+	Name, LongName string
+	Flags          uint32
+	Stat           FileStat
+}
+
+// VerifPkt is a flat record able to describe any SFTP v3 packet of this package.
+type VerifPkt struct {
+	Kind    string // e.g. "Open", "Read", "Status", "ExtStatVFS"
+	ID      uint32
+	Version uint32
+	Path    string // path / filename / oldpath / target path
+	Path2   string // newpath / link path
+	Handle  string
+	Pflags  uint32
+	Flags   uint32 // attribute flags
+	Attrs   []byte // raw attribute bytes following the flags word (requests)
+	Offset  uint64
+	Len     uint32
+	Data    []byte
+	Code    uint32
+	Msg     string
+	Lang    string
+	ExtName string
+	Ext     [][2]string
+	Names   []VerifName
+	Stat    FileStat
+	VFS     [11]uint64
+}
+
+// VerifDecodeRequest runs makePacket (the server-side request decoder) on a type byte and body.
+func VerifDecodeRequest(typ uint8, body []byte) (VerifPkt, error) {
+	pkt, err := makePacket(rxPacket{fxp(typ), body})
+	if err != nil {
+		return VerifPkt{}, err
+	}
+	return verifFromRequest(pkt), nil
+}
+
+func verifFromRequest(pkt requestPacket) VerifPkt {
+	switch p := pkt.(type) {
+	case *sshFxInitPacket:
+		v := VerifPkt{Kind: "Init", Version: p.Version}
+		for _, e := range p.Extensions {
+			v.Ext = append(v.Ext, [2]string{e.Name, e.Data})
+		}
+		return v
+	case *sshFxpLstatPacket:
+		return VerifPkt{Kind: "Lstat", ID: p.ID, Path: p.Path}
+	case *sshFxpOpenPacket:
+		return VerifPkt{Kind: "Open", ID: p.ID, Path: p.Path, Pflags: p.Pflags, Flags: p.Flags, Attrs: p.Attrs.([]byte)}
+	case *sshFxpClosePacket:
+		return VerifPkt{Kind: "Close", ID: p.ID, Handle: p.Handle}
+	case *sshFxpReadPacket:
+		return VerifPkt{Kind: "Read", ID: p.ID, Handle: p.Handle, Offset: p.Offset, Len: p.Len}
+	case *sshFxpWritePacket:
+		return VerifPkt{Kind: "Write", ID: p.ID, Handle: p.Handle, Offset: p.Offset, Len: p.Length, Data: p.Data}
+	case *sshFxpFstatPacket:
+		return VerifPkt{Kind: "Fstat", ID: p.ID, Handle: p.Handle}
+	case *sshFxpSetstatPacket:
+		return VerifPkt{Kind: "Setstat", ID: p.ID, Path: p.Path, Flags: p.Flags, Attrs: p.Attrs.([]byte)}
+	case *sshFxpFsetstatPacket:
+		return VerifPkt{Kind: "Fsetstat", ID: p.ID, Handle: p.Handle, Flags: p.Flags, Attrs: p.Attrs.([]byte)}
+	case *sshFxpOpendirPacket:
+		return VerifPkt{Kind: "Opendir", ID: p.ID, Path: p.Path}
+	case *sshFxpReaddirPacket:
+		return VerifPkt{Kind: "Readdir", ID: p.ID, Handle: p.Handle}
+	case *sshFxpRemovePacket:
+		return VerifPkt{Kind: "Remove", ID: p.ID, Path: p.Filename}
+	case *sshFxpMkdirPacket:
+		return VerifPkt{Kind: "Mkdir", ID: p.ID, Path: p.Path, Flags: p.Flags}
+	case *sshFxpRmdirPacket:
+		return VerifPkt{Kind: "Rmdir", ID: p.ID, Path: p.Path}
+	case *sshFxpRealpathPacket:
+		return VerifPkt{Kind: "Realpath", ID: p.ID, Path: p.Path}
+	case *sshFxpStatPacket:
+		return VerifPkt{Kind: "Stat", ID: p.ID, Path: p.Path}
+	case *sshFxpRenamePacket:
+		return VerifPkt{Kind: "Rename", ID: p.ID, Path: p.Oldpath, Path2: p.Newpath}
+	case *sshFxpReadlinkPacket:
+		return VerifPkt{Kind: "Readlink", ID: p.ID, Path: p.Path}
+	case *sshFxpSymlinkPacket:
+		return VerifPkt{Kind: "Symlink", ID: p.ID, Path: p.Targetpath, Path2: p.Linkpath}
+	case *sshFxpExtendedPacket:
+		switch sp := p.SpecificPacket.(type) {
+		case *sshFxpExtendedPacketStatVFS:
+			return VerifPkt{Kind: "ExtStatVFS", ID: sp.ID, ExtName: sp.ExtendedRequest, Path: sp.Path}
+		case *sshFxpExtendedPacketPosixRename:
+			return VerifPkt{Kind: "ExtPosixRename", ID: sp.ID, ExtName: sp.ExtendedRequest, Path: sp.Oldpath, Path2: sp.Newpath}
+		case *sshFxpExtendedPacketHardlink:
+			return VerifPkt{Kind: "ExtHardlink", ID: sp.ID, ExtName: sp.ExtendedRequest, Path: sp.Oldpath, Path2: sp.Newpath}
+		}
+		return VerifPkt{Kind: "ExtUnknown", ID: p.ID, ExtName: p.ExtendedRequest}
+	}
+	return VerifPkt{Kind: fmt.Sprintf("?%T", pkt)}
+}
+
+// VerifEncode encodes the packet described by v with the package's wire codec and
+// returns the complete frame (length prefix included), produced through sendPacket.
+func VerifEncode(v VerifPkt) ([]byte, error) {
+	m, err := verifToMarshaler(v)
+	if err != nil {
+		return nil, err
+	}
+	var buf bytes.Buffer
+	if err := sendPacket(&buf, m); err != nil {
+		return nil, err
+	}
+	return buf.Bytes(), nil
+}
+
+func verifToMarshaler(v VerifPkt) (encoding.BinaryMarshaler, error) {
+	switch v.Kind {
+	case "Init":
+		p := &sshFxInitPacket{Version: v.Version}
+		for _, e := range v.Ext {
+			p.Extensions = append(p.Extensions, extensionPair{e[0], e[1]})
+		}
+		return p, nil
+	case "Version":
+		p := &sshFxVersionPacket{Version: v.Version}
+		for _, e := range v.Ext {
+			p.Extensions = append(p.Extensions, sshExtensionPair{e[0], e[1]})
+		}
+		return p, nil
+	case "Lstat":
+		return &sshFxpLstatPacket{ID: v.ID, Path: v.Path}, nil
+	case "Open":
+		return &sshFxpOpenPacket{ID: v.ID, Path: v.Path, Pflags: v.Pflags, Flags: v.Flags, Attrs: v.Attrs}, nil
+	case "Close":
+		return &sshFxpClosePacket{ID: v.ID, Handle: v.Handle}, nil
+	case "Read":
+		return &sshFxpReadPacket{ID: v.ID, Handle: v.Handle, Offset: v.Offset, Len: v.Len}, nil
+	case "Write":
+		return &sshFxpWritePacket{ID: v.ID, Handle: v.Handle, Offset: v.Offset, Length: v.Len, Data: v.Data}, nil
+	case "Fstat":
+		return &sshFxpFstatPacket{ID: v.ID, Handle: v.Handle}, nil
+	case "Setstat":
+		return &sshFxpSetstatPacket{ID: v.ID, Path: v.Path, Flags: v.Flags, Attrs: v.Attrs}, nil
+	case "Fsetstat":
+		return &sshFxpFsetstatPacket{ID: v.ID, Handle: v.Handle, Flags: v.Flags, Attrs: v.Attrs}, nil
+	case "SetstatFS": // attributes given as a FileStat, encoded by flags
+		st := v.Stat
+		return &sshFxpSetstatPacket{ID: v.ID, Path: v.Path, Flags: v.Flags, Attrs: &st}, nil
+	case "FsetstatFS":
+		st := v.Stat
+		return &sshFxpFsetstatPacket{ID: v.ID, Handle: v.Handle, Flags: v.Flags, Attrs: &st}, nil
+	case "Opendir":
+		return &sshFxpOpendirPacket{ID: v.ID, Path: v.Path}, nil
+	case "Readdir":
+		return &sshFxpReaddirPacket{ID: v.ID, Handle: v.Handle}, nil
+	case "Remove":
+		return &sshFxpRemovePacket{ID: v.ID, Filename: v.Path}, nil
+	case "Mkdir":
+		return &sshFxpMkdirPacket{ID: v.ID, Path: v.Path, Flags: v.Flags}, nil
+	case "Rmdir":
+		return &sshFxpRmdirPacket{ID: v.ID, Path: v.Path}, nil
+	case "Realpath":
+		return &sshFxpRealpathPacket{ID: v.ID, Path: v.Path}, nil
+	case "Stat":
+		return &sshFxpStatPacket{ID: v.ID, Path: v.Path}, nil
+	case "Rename":
+		return &sshFxpRenamePacket{ID: v.ID, Oldpath: v.Path, Newpath: v.Path2}, nil
+	case "Readlink":
+		return &sshFxpReadlinkPacket{ID: v.ID, Path: v.Path}, nil
+	case "Symlink":
+		return &sshFxpSymlinkPacket{ID: v.ID, Targetpath: v.Path, Linkpath: v.Path2}, nil
+	case "ExtStatVFS":
+		return &sshFxpStatvfsPacket{ID: v.ID, Path: v.Path}, nil
+	case "ExtPosixRename":
+		return &sshFxpPosixRenamePacket{ID: v.ID, Oldpath: v.Path, Newpath: v.Path2}, nil
+	case "ExtHardlink":
+		return &sshFxpHardlinkPacket{ID: v.ID, Oldpath: v.Path, Newpath: v.Path2}, nil
+	case "ExtFsync":
+		return &sshFxpFsyncPacket{ID: v.ID, Handle: v.Handle}, nil
+	case "Status":
+		return &sshFxpStatusPacket{ID: v.ID, StatusError: StatusError{Code: v.Code, msg: v.Msg, lang: v.Lang}}, nil
+	case "Handle":
+		return &sshFxpHandlePacket{ID: v.ID, Handle: v.Handle}, nil
+	case "Data":
+		d := make([]byte, len(v.Data), len(v.Data)+dataHeaderLen)
+		copy(d, v.Data)
+		return &sshFxpDataPacket{ID: v.ID, Length: v.Len, Data: d}, nil
+	case "Name":
+		p := &sshFxpNamePacket{ID: v.ID}
+		for i := range v.Names {
+			n := v.Names[i]
+			st := n.Stat
+			p.NameAttrs = append(p.NameAttrs, &sshFxpNameAttr{
+				Name: n.Name, LongName: n.LongName,
+				Attrs: []any{n.Flags, marshalFileStat(nil, n.Flags, &st)},
+			})
+		}
+		return p, nil
+	case "Attrs": // an ATTRS reply built from explicit flags and values
+		st := v.Stat
+		return verifRaw(append(marshalUint32([]byte{0, 0, 0, 0, sshFxpAttrs}, v.ID),
+			marshalFileStat(marshalUint32(nil, v.Flags), v.Flags, &st)...)), nil
+	case "VFS":
+		return &StatVFS{ID: v.ID, Bsize: v.VFS[0], Frsize: v.VFS[1], Blocks: v.VFS[2], Bfree: v.VFS[3], Bavail: v.VFS[4],
+			Files: v.VFS[5], Ffree: v.VFS[6], Favail: v.VFS[7], Fsid: v.VFS[8], Flag: v.VFS[9], Namemax: v.VFS[10]}, nil
+	}
+	return nil, fmt.Errorf("verif: unknown kind %q", v.Kind)
+}
+
+type verifRaw []byte
+
+func (r verifRaw) MarshalBinary() ([]byte, error) { return append([]byte(nil), r...), nil }
+
+// VerifStatResponse encodes the ATTRS reply the servers build from an os.FileInfo.
+func VerifStatResponse(id uint32, fi os.FileInfo) ([]byte, error) {
+	var buf bytes.Buffer
+	err := sendPacket(&buf, &sshFxpStatResponse{ID: id, info: fi})
+	return buf.Bytes(), err
+}
+
+// VerifNameResponse encodes a NAME reply the way the servers do for directory entries.
+func VerifNameResponse(id uint32, fis []os.FileInfo) ([]byte, error) {
+	p := &sshFxpNamePacket{ID: id}
+	for _, fi := range fis {
+		p.NameAttrs = append(p.NameAttrs, &sshFxpNameAttr{Name: fi.Name(), LongName: runLs(nil, fi), Attrs: []any{fi}})
+	}
+	var buf bytes.Buffer
+	err := sendPacket(&buf, p)
+	return buf.Bytes(), err
+}
+
+// ---- the internal filexfer codec (not importable from outside this module) ----
+
+func verifFxAttrs(flags uint32, raw []byte) (sshfx.Attributes, error) {
+	var a sshfx.Attributes
+	err := a.XXX_UnmarshalByFlags(flags, sshfx.NewBuffer(raw))
+	return a, err
+}
+
+func verifFromFxAttrs(a *sshfx.Attributes) (uint32, FileStat) {
+	st := FileStat{Size: a.Size, UID: a.UID, GID: a.GID, Mode: uint32(a.Permissions), Atime: a.ATime, Mtime: a.MTime}
+	for _, e := range a.ExtendedAttributes {
+		st.Extended = append(st.Extended, StatExtended{e.Type, e.Data})
+	}
+	return a.Flags, st
+}
+
+func verifToFxAttrs(flags uint32, st *FileStat) sshfx.Attributes {
+	a := sshfx.Attributes{Flags: flags, Size: st.Size, UID: st.UID, GID: st.GID, Permissions: sshfx.FileMode(st.Mode), ATime: st.Atime, MTime: st.Mtime}
+	for _, e := range st.Extended {
+		a.ExtendedAttributes = append(a.ExtendedAttributes, sshfx.ExtendedAttribute{Type: e.ExtType, Data: e.ExtData})
+	}
+	return a
+}
+
+// VerifFxAttrsDecode decodes an attribute block (flags word first) with the filexfer codec.
+func VerifFxAttrsDecode(b []byte) (uint32, FileStat, error) {
+	var a sshfx.Attributes
+	err := a.UnmarshalBinary(b)
+	f, st := verifFromFxAttrs(&a)
+	return f, st, err
+}
+
+// VerifFxAttrsEncode encodes an attribute block with the filexfer codec.
+func VerifFxAttrsEncode(flags uint32, st FileStat) []byte {
+	a := verifToFxAttrs(flags, &st)
+	b, _ := a.MarshalBinary()
+	return b
+}
+
+// VerifFxEncode encodes v with the filexfer codec and returns the complete frame.
+// Attribute-carrying requests take the FileStat in v.Stat with flags v.Flags.
+func VerifFxEncode(v VerifPkt) ([]byte, error) {
+	var p sshfx.PacketMarshaller
+	switch v.Kind {
+	case "Init", "Version":
+		var exts []*sshfx.ExtensionPair
+		for _, e := range v.Ext {
+			exts = append(exts, &sshfx.ExtensionPair{Name: e[0], Data: e[1]})
+		}
+		if v.Kind == "Init" {
+			return (&sshfx.InitPacket{Version: v.Version, Extensions: exts}).MarshalBinary()
+		}
+		return (&sshfx.VersionPacket{Version: v.Version, Extensions: exts}).MarshalBinary()
+	case "Lstat":
+		p = &sshfx.LStatPacket{Path: v.Path}
+	case "Open":
+		p = &sshfx.OpenPacket{Filename: v.Path, PFlags: v.Pflags, Attrs: verifToFxAttrs(v.Flags, &v.Stat)}
+	case "Close":
+		p = &sshfx.ClosePacket{Handle: v.Handle}
+	case "Read":
+		p = &sshfx.ReadPacket{Handle: v.Handle, Offset: v.Offset, Length: v.Len}
+	case "Write":
+		p = &sshfx.WritePacket{Handle: v.Handle, Offset: v.Offset, Data: v.Data}
+	case "Fstat":
+		p = &sshfx.FStatPacket{Handle: v.Handle}
+	case "Setstat":
+		p = &sshfx.SetstatPacket{Path: v.Path, Attrs: verifToFxAttrs(v.Flags, &v.Stat)}
+	case "Fsetstat":
+		p = &sshfx.FSetstatPacket{Handle: v.Handle, Attrs: verifToFxAttrs(v.Flags, &v.Stat)}
+	case "Opendir":
+		p = &sshfx.OpenDirPacket{Path: v.Path}
+	case "Readdir":
+		p = &sshfx.ReadDirPacket{Handle: v.Handle}
+	case "Remove":
+		p = &sshfx.RemovePacket{Path: v.Path}
+	case "Mkdir":
+		p = &sshfx.MkdirPacket{Path: v.Path, Attrs: verifToFxAttrs(v.Flags, &v.Stat)}
+	case "Rmdir":
+		p = &sshfx.RmdirPacket{Path: v.Path}
+	case "Realpath":
+		p = &sshfx.RealPathPacket{Path: v.Path}
+	case "Stat":
+		p = &sshfx.StatPacket{Path: v.Path}
+	case "Rename":
+		p = &sshfx.RenamePacket{OldPath: v.Path, NewPath: v.Path2}
+	case "Readlink":
+		p = &sshfx.ReadLinkPacket{Path: v.Path}
+	case "Symlink":
+		p = &sshfx.SymlinkPacket{TargetPath: v.Path, LinkPath: v.Path2}
+	case "ExtStatVFS":
+		p = &openssh.StatVFSExtendedPacket{Path: v.Path}
+	case "ExtPosixRename":
+		p = &openssh.POSIXRenameExtendedPacket{OldPath: v.Path, NewPath: v.Path2}
+	case "ExtHardlink":
+		p = &openssh.HardlinkExtendedPacket{OldPath: v.Path, NewPath: v.Path2}
+	case "ExtFsync":
+		p = &openssh.FSyncExtendedPacket{Handle: v.Handle}
+	case "Status":
+		p = &sshfx.StatusPacket{StatusCode: sshfx.Status(v.Code), ErrorMessage: v.Msg, LanguageTag: v.Lang}
+	case "Handle":
+		p = &sshfx.HandlePacket{Handle: v.Handle}
+	case "Data":
+		p = &sshfx.DataPacket{Data: v.Data}
+	case "Name":
+		np := &sshfx.NamePacket{}
+		for i := range v.Names {
+			n := v.Names[i]
+			np.Entries = append(np.Entries, &sshfx.NameEntry{Filename: n.Name, Longname: n.LongName, Attrs: verifToFxAttrs(n.Flags, &n.Stat)})
+		}
+		p = np
+	case "Attrs":
+		p = &sshfx.AttrsPacket{Attrs: verifToFxAttrs(v.Flags, &v.Stat)}
+	case "VFS":
+		p = &openssh.StatVFSExtendedReplyPacket{BlockSize: v.VFS[0], FragmentSize: v.VFS[1], Blocks: v.VFS[2], BlocksFree: v.VFS[3], BlocksAvail: v.VFS[4],
+			Files: v.VFS[5], FilesFree: v.VFS[6], FilesAvail: v.VFS[7], FilesystemID: v.VFS[8], MountFlags: v.VFS[9], MaxNameLength: v.VFS[10]}
+	default:
+		return nil, fmt.Errorf("verif: unknown kind %q", v.Kind)
+	}
+	return sshfx.ComposePacket(p.MarshalPacket(v.ID, nil))
+}
+
+// VerifFxDecode decodes a type byte and body (request or response) with the filexfer codec.
+// Attribute blocks are reported as (Flags, Stat).
+func VerifFxDecode(typ uint8, body []byte) (VerifPkt, error) {
+	buf := sshfx.NewBuffer(append([]byte(nil), body...))
+	t := sshfx.PacketType(typ)
+	switch t {
+	case sshfx.PacketTypeInit, sshfx.PacketTypeVersion:
+		full := append([]byte{typ}, body...)
+		if t == sshfx.PacketTypeInit {
+			var p sshfx.InitPacket
+			if err := p.UnmarshalBinary(full); err != nil {
+				return VerifPkt{}, err
+			}
+			v := VerifPkt{Kind: "Init", Version: p.Version}
+			for _, e := range p.Extensions {
+				v.Ext = append(v.Ext, [2]string{e.Name, e.Data})
+			}
+			return v, nil
+		}
+		var p sshfx.VersionPacket
+		if err := p.UnmarshalBinary(full); err != nil {
+			return VerifPkt{}, err
+		}
+		v := VerifPkt{Kind: "Version", Version: p.Version}
+		for _, e := range p.Extensions {
+			v.Ext = append(v.Ext, [2]string{e.Name, e.Data})
+		}
+		return v, nil
+	}
+	id := buf.ConsumeUint32()
+	if buf.Err != nil {
+		return VerifPkt{}, buf.Err
+	}
+	v := VerifPkt{ID: id}
+	var err error
+	switch t {
+	case sshfx.PacketTypeStatus:
+		var p sshfx.StatusPacket
+		err = p.UnmarshalPacketBody(buf)
+		v.Kind, v.Code, v.Msg, v.Lang = "Status", uint32(p.StatusCode), p.ErrorMessage, p.LanguageTag
+	case sshfx.PacketTypeHandle:
+		var p sshfx.HandlePacket
+		err = p.UnmarshalPacketBody(buf)
+		v.Kind, v.Handle = "Handle", p.Handle
+	case sshfx.PacketTypeData:
+		var p sshfx.DataPacket
+		err = p.UnmarshalPacketBody(buf)
+		v.Kind, v.Data, v.Len = "Data", p.Data, uint32(len(p.Data))
+	case sshfx.PacketTypeName:
+		var p sshfx.NamePacket
+		err = p.UnmarshalPacketBody(buf)
+		v.Kind = "Name"
+		for _, e := range p.Entries {
+			f, st := verifFromFxAttrs(&e.Attrs)
+			v.Names = append(v.Names, VerifName{Name: e.Filename, LongName: e.Longname, Flags: f, Stat: st})
+		}
+	case sshfx.PacketTypeAttrs:
+		var p sshfx.AttrsPacket
+		err = p.UnmarshalPacketBody(buf)
+		v.Kind = "Attrs"
+		v.Flags, v.Stat = verifFromFxAttrs(&p.Attrs)
+	case sshfx.PacketTypeExtendedReply:
+		var p openssh.StatVFSExtendedReplyPacket
+		err = p.UnmarshalPacketBody(buf)
+		v.Kind = "VFS"
+		v.VFS = [11]uint64{p.BlockSize, p.FragmentSize, p.Blocks, p.BlocksFree, p.BlocksAvail, p.Files, p.FilesFree, p.FilesAvail, p.FilesystemID, p.MountFlags, p.MaxNameLength}
+	default:
+		var rp sshfx.RequestPacket
+		full := append([]byte{typ}, body...)
+		if err := rp.UnmarshalBinary(full); err != nil {
+			return VerifPkt{}, err
+		}
+		switch p := rp.Request.(type) {
+		case *sshfx.LStatPacket:
+			v.Kind, v.Path = "Lstat", p.Path
+		case *sshfx.OpenPacket:
+			v.Kind, v.Path, v.Pflags = "Open", p.Filename, p.PFlags
+			v.Flags, v.Stat = verifFromFxAttrs(&p.Attrs)
+		case *sshfx.ClosePacket:
+			v.Kind, v.Handle = "Close", p.Handle
+		case *sshfx.ReadPacket:
+			v.Kind, v.Handle, v.Offset, v.Len = "Read", p.Handle, p.Offset, p.Length
+		case *sshfx.WritePacket:
+			v.Kind, v.Handle, v.Offset, v.Data, v.Len = "Write", p.Handle, p.Offset, p.Data, uint32(len(p.Data))
+		case *sshfx.FStatPacket:
+			v.Kind, v.Handle = "Fstat", p.Handle
+		case *sshfx.SetstatPacket:
+			v.Kind, v.Path = "Setstat", p.Path
+			v.Flags, v.Stat = verifFromFxAttrs(&p.Attrs)
+		case *sshfx.FSetstatPacket:
+			v.Kind, v.Handle = "Fsetstat", p.Handle
+			v.Flags, v.Stat = verifFromFxAttrs(&p.Attrs)
+		case *sshfx.OpenDirPacket:
+			v.Kind, v.Path = "Opendir", p.Path
+		case *sshfx.ReadDirPacket:
+			v.Kind, v.Handle = "Readdir", p.Handle
+		case *sshfx.RemovePacket:
+			v.Kind, v.Path = "Remove", p.Path
+		case *sshfx.MkdirPacket:
+			v.Kind, v.Path = "Mkdir", p.Path
+			v.Flags, v.Stat = verifFromFxAttrs(&p.Attrs)
+		case *sshfx.RmdirPacket:
+			v.Kind, v.Path = "Rmdir", p.Path
+		case *sshfx.RealPathPacket:
+			v.Kind, v.Path = "Realpath", p.Path
+		case *sshfx.StatPacket:
+			v.Kind, v.Path = "Stat", p.Path
+		case *sshfx.RenamePacket:
+			v.Kind, v.Path, v.Path2 = "Rename", p.OldPath, p.NewPath
+		case *sshfx.ReadLinkPacket:
+			v.Kind, v.Path = "Readlink", p.Path
+		case *sshfx.SymlinkPacket:
+			v.Kind, v.Path, v.Path2 = "Symlink", p.TargetPath, p.LinkPath
+		case *sshfx.ExtendedPacket:
+			v.ExtName = p.ExtendedRequest
+			switch d := p.Data.(type) {
+			case *openssh.StatVFSExtendedPacket:
+				v.Kind, v.Path = "ExtStatVFS", d.Path
+			case *openssh.POSIXRenameExtendedPacket:
+				v.Kind, v.Path, v.Path2 = "ExtPosixRename", d.OldPath, d.NewPath
+			case *openssh.HardlinkExtendedPacket:
+				v.Kind, v.Path, v.Path2 = "ExtHardlink", d.OldPath, d.NewPath
+			case *openssh.FSyncExtendedPacket:
+				v.Kind, v.Handle = "ExtFsync", d.Handle
+			default:
+				v.Kind = "ExtUnknown"
+			}
+		default:
+			v.Kind = fmt.Sprintf("?%T", p)
+		}
+		return v, nil
+	}
+	return v, err
+}
+
+// VerifFxRegisterExtensions makes the filexfer codec decode the OpenSSH extended requests.
+func VerifFxRegisterExtensions() {
+	openssh.RegisterExtensionStatVFS()
+	openssh.RegisterExtensionPOSIXRename()
+	openssh.RegisterExtensionHardlink()
+	openssh.RegisterExtensionFSync()
+}
+
+// ---- servers: allocator counters and gated files ----
+
+// VerifFile is the package's internal `file` interface.
+type VerifFile = file
+
+// VerifSwapFile replaces the open file behind handle (under the server's own lock).
+func VerifSwapFile(s *Server, handle string, wrap func(VerifFile) VerifFile) bool {
+	s.openFilesLock.Lock()
+	defer s.openFilesLock.Unlock()
+	f, ok := s.openFiles[handle]
+	if ok {
+		s.openFiles[handle] = wrap(f)
+	}
+	return ok
+}
+
+func VerifOpenHandles(s *Server) int {
+	s.openFilesLock.RLock()
+	defer s.openFilesLock.RUnlock()
+	return len(s.openFiles)
+}
+
+func VerifOpenRequests(rs *RequestServer) int {
+	rs.mu.RLock()
+	defer rs.mu.RUnlock()
+	return len(rs.openRequests)
+}
+
+func verifAllocCounts(a *allocator) (used, avail int, on bool) {
+	if a == nil {
+		return 0, 0, false
+	}
+	return a.countUsedPages(), a.countAvailablePages(), true
+}
+func VerifServerAlloc(s *Server) (used, avail int, on bool) { return verifAllocCounts(s.pktMgr.alloc) }
+func VerifRequestServerAlloc(rs *RequestServer) (used, avail int, on bool) {
+	return verifAllocCounts(rs.pktMgr.alloc)
+}
